@@ -14,7 +14,11 @@ Inductive rec : Type :=
 | RModel (n : Z) | REndmdl | RTer | RAtom (a : arec)
 | RHeader (id : text) | RRemark (n : Z) (t : text)
 | RCryst (cell : list text) (sg : text)
-| RScale (m : list text) | ROrigx (m : list text) | RMtrix (ser : Z) (m : list text) (given : bool).
+| RScale (m : list text) | ROrigx (m : list text) | RMtrix (ser : Z) (m : list text) (given : bool)
+(* annotations of the chains and residues: database reference of a chain, a difference with the database sequence, a modified residue *)
+| RDbref (chain : text) (pos : Z * option text * Z * option text) (db acc id : text) (dbpos : Z * option text * Z * option text)
+| RSeqadv (resname chain : text) (num : Z) (ins : option text) (dbres : option (text * Z)) (comment : text)
+| RModres (resname chain : text) (num : Z) (ins : option text) (std comment : text).
 
 Definition dec (t : text) : fval :=
   match parse_dec t with
@@ -125,3 +129,76 @@ Definition denote_scale := last_some (fun r => match r with RScale m => Some (ma
 Definition denote_origx := last_some (fun r => match r with ROrigx m => Some (map dec m) | _ => None end).
 Definition denote_mtrix (rs : list rec) : list (Z * list fval * bool) :=
   flat_map (fun r => match r with RMtrix ser m g => [(ser, map dec m, g)] | _ => [] end) rs.
+
+
+(* ----- annotations: MODRES, DBREF, SEQADV -----
+   A record names its chain by the chain identifier as it stands and its residue by number and insertion code, the residue
+   name and the insertion code in any case (they are stored in upper case).  The annotation goes to the first model that has
+   a chain of that name (the models of a file describe the same molecule; the readers annotate the first one). *)
+Fixpoint find_pos {A} (p : A -> bool) (l : list A) (k : nat) : option nat :=
+  match l with [] => None | x :: r => if p x then Some k else find_pos p r (S k) end.
+Fixpoint upd_nth {A} (n : nat) (f : A -> A) (l : list A) : list A :=
+  match n, l with O, x :: r => f x :: r | S k, x :: r => x :: upd_nth k f r | _, [] => [] end.
+Definition has_chain (c : text) (m : model) : bool := existsb (fun ch => text_eqb (ch_id ch) c) (m_chains m).
+Definition set_mod (resname : text) (md : text * text) (r : residue) : residue :=
+  match find_pos (fun cf => text_eqb (c_name cf) (upper (trim resname))) (r_confs r) 0 with
+  | Some k => {| r_num := r_num r; r_icode := r_icode r;
+                 r_confs := upd_nth k (fun cf => {| c_name := c_name cf; c_alt := c_alt cf; c_mod := Some md; c_atoms := c_atoms cf |}) (r_confs r) |}
+  | None => r
+  end.
+Definition same_okey (a b : option text) : bool :=
+  match a, b with None, None => true | Some x, Some y => text_eqb x y | _, _ => false end.
+Definition modres_step (p : pdb) (r : rec) : pdb :=
+  match r with
+  | RModres resname chain num ins std comment =>
+      match find_pos (has_chain (trim chain)) p 0 with
+      | Some mi =>
+          upd_nth mi (fun m =>
+            match find_pos (fun ch => text_eqb (ch_id ch) (trim chain)) (m_chains m) 0 with
+            | Some ci => {| m_serial := m_serial m;
+                            m_chains := upd_nth ci (fun ch =>
+                              match find_pos (fun rs => (Z.eqb (r_num rs) num && same_okey (r_icode rs) (upper_opt ins))%bool) (ch_residues ch) 0 with
+                              | Some ri => {| ch_id := ch_id ch; ch_residues := upd_nth ri (set_mod resname (trim std, trim comment)) (ch_residues ch) |}
+                              | None => ch
+                              end) (m_chains m) |}
+            | None => m
+            end) p
+      | None => p
+      end
+  | _ => p
+  end.
+Definition denote_annotated (rs : list rec) : pdb := fold_left modres_step rs (denote_models rs).
+
+Definition pos_of (p : Z * option text * Z * option text) : Z * option text * Z * option text :=
+  let '(a, ai, b, bi) := p in
+  let blank o := match o with Some t => match trim t with [] => None | x => Some x end | None => None end in
+  (a, blank ai, b, blank bi).
+(* the SEQADV records of a chain that stand after its DBREF record *)
+Fixpoint seqadv_after (chain : text) (seen : bool) (rs : list rec) : list (text * Z * option text * option (text * Z) * text) :=
+  match rs with
+  | [] => []
+  | RDbref c _ _ _ _ _ :: r => seqadv_after chain (seen || text_eqb (trim c) chain)%bool r
+  | RSeqadv resname c num ins dbres comment :: r =>
+      if (seen && text_eqb (trim c) chain)%bool
+      then (trim resname, num, match ins with Some t => match trim t with [] => None | x => Some x end | None => None end,
+            option_map (fun d : text * Z => (trim (fst d), snd d)) dbres, trim comment) :: seqadv_after chain seen r
+      else seqadv_after chain seen r
+  | _ :: r => seqadv_after chain seen r
+  end.
+(* (model index, chain index, (database, accession, id code), positions in the file, positions in the database, differences):
+   one entry per chain that a DBREF record names, in the first model that has the chain; one DBREF record per chain is assumed *)
+Definition denote_dbrefs (rs : list rec) :
+  list (nat * nat * (text * text * text) * (Z * option text * Z * option text) * (Z * option text * Z * option text)
+        * list (text * Z * option text * option (text * Z) * text)) :=
+  let p := denote_models rs in
+  flat_map (fun im : nat * model =>
+    flat_map (fun jc : nat * chain =>
+      if match find_pos (has_chain (ch_id (snd jc))) p 0 with Some k => Nat.eqb k (fst im) | None => false end then
+        match find (fun r => match r with RDbref c _ _ _ _ _ => text_eqb (trim c) (ch_id (snd jc)) | _ => false end) rs with
+        | Some (RDbref c pos db acc id dbpos) =>
+            [(fst im, fst jc, (trim db, trim acc, trim id), pos_of pos, pos_of dbpos, seqadv_after (ch_id (snd jc)) false rs)]
+        | _ => []
+        end
+      else [])
+      (combine (seq 0 (List.length (m_chains (snd im)))) (m_chains (snd im))))
+    (combine (seq 0 (List.length p)) p).
